@@ -21,6 +21,15 @@ func bpWrite(f func(p *thrift.BinaryProtocol) error) ([]byte, error) {
 	return append([]byte{}, p.Buf...), err
 }
 
+// c19Junk: half of the readers start at a non-zero cursor behind a few unrelated bytes.
+func c19Junk(cs *h.Case) []byte {
+	if cs.R.Bool() {
+		return nil
+	}
+	cs.Cover("reads_from_nonzero_cursor")
+	return cs.R.Bytes(1 + cs.R.Intn(9))
+}
+
 func runC19(c *h.Ctx) {
 	// ---- exhaustive bool/byte/i16 ------------------------------------------------
 	c.Run("scalar-exhaustive", 18, func(cs *h.Case) {
@@ -93,16 +102,17 @@ func runC19(c *h.Ctx) {
 			cs.Viol("codec:WriteBinary:bytes", "err", err, "got", got, "want", want)
 		}
 		for _, cp := range []bool{false, true} {
-			tr := h.TrapCopy(want, true, true)
-			p := &thrift.BinaryProtocol{Buf: tr.B}
+			pre := c19Junk(cs)
+			tr := h.TrapCopy(append(append([]byte{}, pre...), want...), true, true)
+			p := &thrift.BinaryProtocol{Buf: tr.B, Read: len(pre)}
 			r, err := p.ReadString(cp)
-			if err != nil || r != string(s) || p.Read != len(want) {
-				cs.Viol("codec:ReadString", "err", err, "read", p.Read, "want", len(want))
+			if err != nil || r != string(s) || p.Read != len(pre)+len(want) {
+				cs.Viol("codec:ReadString", "err", err, "read", p.Read-len(pre), "want", len(want), "cursor", len(pre))
 			}
-			p.Read = 0
+			p.Read = len(pre)
 			rb, err := p.ReadBinary(cp)
-			if err != nil || !bytes.Equal(rb, s) || p.Read != len(want) {
-				cs.Viol("codec:ReadBinary", "err", err, "read", p.Read, "want", len(want))
+			if err != nil || !bytes.Equal(rb, s) || p.Read != len(pre)+len(want) {
+				cs.Viol("codec:ReadBinary", "err", err, "read", p.Read-len(pre), "want", len(want), "cursor", len(pre))
 			}
 			tr.Free()
 		}
@@ -366,12 +376,13 @@ func runC19(c *h.Ctx) {
 		// ReadAny of reference bytes, every option pair
 		for opt := 0; opt < 4; opt++ {
 			sab, bai := opt&1 == 1, opt&2 == 2
-			tr := h.TrapCopy(b, true, true)
-			p := &thrift.BinaryProtocol{Buf: tr.B}
+			pre := c19Junk(cs)
+			tr := h.TrapCopy(append(append([]byte{}, pre...), b...), true, true)
+			p := &thrift.BinaryProtocol{Buf: tr.B, Read: len(pre)}
 			g, err := p.ReadAny(thrift.STRUCT, sab, bai)
 			want := ToGo(v, nil, GoCfg{StrAsBinary: sab, ByteAsUint8: !bai})
-			if err != nil || p.Read != len(b) {
-				cs.Viol("any:ReadAny:err", "err", err, "read", p.Read, "len", len(b), "strAsBinary", sab, "byteAsInt8", bai)
+			if err != nil || p.Read != len(pre)+len(b) {
+				cs.Viol("any:ReadAny:err", "err", err, "read", p.Read-len(pre), "len", len(b), "strAsBinary", sab, "byteAsInt8", bai, "cursor", len(pre))
 			} else if !GoEq(g, want) {
 				cs.Viol("any:ReadAny:value", "got", GoStr(g), "want", GoStr(want), "strAsBinary", sab, "byteAsInt8", bai)
 			}
@@ -442,11 +453,12 @@ func runC19(c *h.Ctx) {
 			u8, cp, fn := opt&1 == 1, opt&2 == 2, opt&4 == 4
 			cfg := GoCfg{ByteAsUint8: u8, FieldName: fn}
 			want := ToGo(v, root, cfg)
-			tr := h.TrapCopy(b, true, true)
-			p := &thrift.BinaryProtocol{Buf: tr.B}
+			pre := c19Junk(cs)
+			tr := h.TrapCopy(append(append([]byte{}, pre...), b...), true, true)
+			p := &thrift.BinaryProtocol{Buf: tr.B, Read: len(pre)}
 			g, err := p.ReadAnyWithDesc(desc, u8, cp, true, fn)
-			if err != nil || p.Read != len(b) {
-				cs.Viol("withdesc:ReadAnyWithDesc:err", "err", err, "read", p.Read, "len", len(b), "byteAsUint8", u8, "useFieldName", fn)
+			if err != nil || p.Read != len(pre)+len(b) {
+				cs.Viol("withdesc:ReadAnyWithDesc:err", "err", err, "read", p.Read-len(pre), "len", len(b), "byteAsUint8", u8, "useFieldName", fn, "cursor", len(pre))
 			} else if !GoEq(g, want) {
 				cs.Viol("withdesc:ReadAnyWithDesc:value", "got", GoStr(g), "want", GoStr(want), "byteAsUint8", u8, "useFieldName", fn)
 			}
